@@ -521,6 +521,146 @@ theorem multisig_template_classified (m n : UInt8) (keys : List Bytes)
   unfold scriptType
   simp [hne, hp, hdt, hpk, hms, bind, Option.bind]
 
+theorem encToks_cons (t : C13.Tok) (ts : List C13.Tok) (enc : Bytes) (h : C13.encToks (t :: ts) = some enc) :
+    ∃ a r, t.enc = some a ∧ C13.encToks ts = some r ∧ enc = a ++ r := by
+  simp only [C13.encToks, bind, Option.bind] at h
+  cases ha : t.enc with
+  | none => simp [ha] at h
+  | some a =>
+    cases hr : C13.encToks ts with
+    | none => simp [ha, hr] at h
+    | some r =>
+      simp only [ha, hr, pure, Option.some.injEq] at h
+      exact ⟨a, r, rfl, rfl, h.symm⟩
+
+private theorem tok_enc_nonempty (t : C13.Tok) (ht : t.ok) (a : Bytes) (h : t.enc = some a) : 1 ≤ a.length := by
+  cases t with
+  | op b => simp only [C13.Tok.enc, Option.some.injEq] at h; rw [← h]; simp
+  | push p =>
+    simp only [C13.Tok.ok] at ht
+    simp only [C13.Tok.enc, Option.map_eq_some_iff] at h
+    obtain ⟨pre, _, rfl⟩ := h
+    simp only [List.length_append]
+    omega
+
+theorem encToks_length_ge (ts : List C13.Tok) (enc : Bytes) (h : C13.encToks ts = some enc)
+    (hok : ∀ t ∈ ts, t.ok) : ts.length ≤ enc.length := by
+  induction ts generalizing enc with
+  | nil => simp
+  | cons t ts ih =>
+    obtain ⟨a, r, ha, hr, rfl⟩ := encToks_cons t ts enc h
+    have h1 := tok_enc_nonempty t (hok t (by simp)) a ha
+    have h2 := ih r hr (fun x hx => hok x (by simp [hx]))
+    simp only [List.length_cons, List.length_append]
+    omega
+
+theorem encToks_of_encs (ts : List C13.Tok) (es : List Bytes) (h : ts.map C13.Tok.enc = es.map some) :
+    C13.encToks ts = some es.flatten := by
+  induction ts generalizing es with
+  | nil =>
+    cases es with
+    | nil => rfl
+    | cons e es => simp at h
+  | cons t ts ih =>
+    cases es with
+    | nil => simp at h
+    | cons e es =>
+      simp only [List.map_cons, List.cons.injEq] at h
+      simp only [C13.encToks, h.1, ih es h.2, bind, Option.bind, pure, List.flatten_cons]
+
+/-- a pushed item as a token: OP_0 for the empty string (what AppendPushData writes), else a push -/
+def itemTok (d : Bytes) : C13.Tok := if d.length = 0 then .op 0x00 else .push d
+
+/-- **P2PKH-inscription template**: the P2PKH template for a 20-byte hash followed by
+    `OP_0 OP_IF "ord" OP_1 <content type> OP_0 <data> OP_ENDIF` (content type and data of any length below 2^32, empty
+    ones written as OP_0) is reported as `pubkeyhashinscription`. -/
+theorem inscription_template_classified (h ct data : Bytes) (hh : h.length = 20)
+    (hct : ct.length < 2 ^ 32) (hdata : data.length < 2 ^ 32) :
+    ∃ s, C13.encToks [.op opDUP, .op opHASH160, .push h, .op opEQUALVERIFY, .op opCHECKSIG, .op 0x00, .op opIF,
+        .push [0x6f, 0x72, 0x64], .op opTRUE, itemTok ct, .op 0x00, itemTok data, .op opENDIFc] = some s ∧
+      scriptType s = some .inscription := by
+  have itemOk : ∀ d : Bytes, d.length < 2 ^ 32 → (itemTok d).ok := by
+    intro d hd
+    unfold itemTok
+    split
+    · simp [C13.Tok.ok]
+    · simp only [C13.Tok.ok]; omega
+  have hok : ∀ t ∈ [C13.Tok.op opDUP, .op opHASH160, .push h, .op opEQUALVERIFY, .op opCHECKSIG, .op 0x00, .op opIF,
+        .push [0x6f, 0x72, 0x64], .op opTRUE, itemTok ct, .op 0x00, itemTok data, .op opENDIFc], t.ok := by
+    intro t ht
+    simp only [List.mem_cons, List.mem_nil_iff, or_false] at ht
+    rcases ht with rfl | rfl | rfl | rfl | rfl | rfl | rfl | rfl | rfl | rfl | rfl | rfl | rfl
+    · simp [C13.Tok.ok, opDUP]
+    · simp [C13.Tok.ok, opHASH160]
+    · simp only [C13.Tok.ok]; omega
+    · simp [C13.Tok.ok, opEQUALVERIFY]
+    · simp [C13.Tok.ok, opCHECKSIG]
+    · simp [C13.Tok.ok]
+    · simp [C13.Tok.ok, opIF]
+    · simp [C13.Tok.ok]
+    · simp [C13.Tok.ok, opTRUE]
+    · exact itemOk ct hct
+    · simp [C13.Tok.ok]
+    · exact itemOk data hdata
+    · simp [C13.Tok.ok, opENDIFc]
+  obtain ⟨enc, he, hd⟩ := C13.decode_toks _ hok
+  refine ⟨enc, he, ?_⟩
+  have hparts : decodeParts enc = ([[opDUP], [opHASH160], h, [opEQUALVERIFY], [opCHECKSIG], [0x00], [opIF],
+      [0x6f, 0x72, 0x64], [opTRUE], (itemTok ct).part, [0x00], (itemTok data).part, [opENDIFc]], true) := by
+    unfold decodeParts
+    simpa [C13.Tok.part] using hd enc.length (Nat.le_refl _)
+  -- the bytes start with OP_DUP and are longer than 25
+  have hshape : ∃ rest, enc = opDUP :: opHASH160 :: rest ∧ 25 < enc.length := by
+    obtain ⟨a1, r1, ha1, hr1, e1⟩ := encToks_cons _ _ _ he
+    obtain ⟨a2, r2, ha2, hr2, e2⟩ := encToks_cons _ _ _ hr1
+    obtain ⟨a3, r3, ha3, hr3, e3⟩ := encToks_cons _ _ _ hr2
+    simp only [C13.Tok.enc, Option.some.injEq] at ha1 ha2
+    subst ha1 ha2
+    have h3 : a3.length = 21 := by
+      simp only [C13.Tok.enc, pushPrefix, hh, show (20 : Nat) ≤ 75 from by decide, ↓reduceIte, Option.map_some,
+        Option.some.injEq] at ha3
+      rw [← ha3]; simp [hh]
+    have h10 := encToks_length_ge _ _ hr3 (fun t ht => hok t (by simp only [List.mem_cons] at ht ⊢; grind))
+    simp only [List.length_cons, List.length_nil] at h10
+    refine ⟨a3 ++ r3, by rw [e1, e2, e3]; rfl, ?_⟩
+    rw [e1, e2, e3]
+    simp only [List.length_append, List.length_cons, List.length_nil, h3]
+    omega
+  obtain ⟨rest, henc, hlen⟩ := hshape
+  have hne : (enc.length == 0) = false := by rw [beq_eq_false_iff_ne]; omega
+  have hp : isP2PKH enc = false := by
+    unfold isP2PKH
+    have : (enc.length == 25) = false := by rw [beq_eq_false_iff_ne]; omega
+    simp [this]
+  have hdt : isData enc = false := by
+    unfold isData
+    rw [henc]
+    simp [opDUP, opRETURN]
+  have hpk : isP2PK enc = some false := by
+    unfold isP2PK
+    simp [hparts]
+  have hms : isMultiSigOut enc = some false := by
+    unfold isMultiSigOut
+    simp [hparts, isSmallIntOp, opDUP, bind, Option.bind, pure]
+  have hpart : ∀ d : Bytes, (itemTok d).part ≠ [] := by
+    intro d
+    unfold itemTok
+    split
+    · simp [C13.Tok.part]
+    · next hne => simp only [C13.Tok.part]; intro e; subst e; simp at hne
+  have hin : isP2PKHInscription enc = some true := by
+    unfold isP2PKHInscription
+    simp only [hparts, Bool.not_true, Bool.false_eq_true, ↓reduceIte]
+    unfold isP2PKHInscriptionParts inscRequired
+    have hhne : (h.length == 0) = false := by rw [hh]; rfl
+    have c1 : ((itemTok ct).part.length == 0) = false := by
+      rw [beq_eq_false_iff_ne]; intro e; exact hpart ct (List.length_eq_zero_iff.mp e)
+    have c2 : ((itemTok data).part.length == 0) = false := by
+      rw [beq_eq_false_iff_ne]; intro e; exact hpart data (List.length_eq_zero_iff.mp e)
+    simp [opDUP, opHASH160, opEQUALVERIFY, opCHECKSIG, opIF, opTRUE, opENDIFc, bind, Option.bind, pure]
+  unfold scriptType
+  simp [hne, hp, hdt, hpk, hms, hin, bind, Option.bind]
+
 /-- A script is reported as data only if it starts with OP_RETURN or OP_FALSE OP_RETURN. -/
 theorem data_only_if_prefix (s : Bytes) (h : scriptType s = some .nulldata) :
     (∃ r, s = opRETURN :: r) ∨ (∃ r, s = 0x00 :: opRETURN :: r) := by
